@@ -24,7 +24,7 @@ ASSUMPTIONS = [
     'per-transcript worker), not by genuinely slow inputs; threads=1',
 ]
 BUDGET = {'quick': 110, 'thorough': 2000}
-FAMILIES = ['small', 'small', 'small', 'multi', 'as', 'fusion', 'circ']
+FAMILIES = ['small', 'small', 'small', 'multi', 'as', 'fusion', 'circ', 'fuscirc']
 KNOBS = [(30, 5), (5, 5), (10, 3), (5, 3), (2, 3), (3, 2), (1, 1), (2, 2), (8, 4), (3, 3),
     (2, 5), (1, 3), (3, 1), (4, 2)]
 
@@ -94,7 +94,7 @@ def prop(case, ctx):
         res0 = cveval.run_tool(case, ctx)
     except Exception as e:     # pylint: disable=broad-except
         bucket = cveval.crash_bucket(e)
-        if case['family'] == 'fusion' and 'expand_alignments' in bucket:
+        if any(r['kind'] == 'fusion' for r in case['records']) and 'expand_alignments' in bucket:
             out.known.append('C01-fusion-expand-alignments-crash')
             return out
         if dom:
@@ -125,7 +125,7 @@ def prop(case, ctx):
         return out.fail(f'limited run raised ValueError: {e}', cveval.crash_bucket(e) + ':limited')
     except Exception as e:     # pylint: disable=broad-except
         bucket = cveval.crash_bucket(e)
-        if case['family'] == 'fusion' and 'expand_alignments' in bucket:
+        if any(r['kind'] == 'fusion' for r in case['records']) and 'expand_alignments' in bucket:
             out.known.append('C01-fusion-expand-alignments-crash')
             return out
         if dom:
